@@ -327,7 +327,6 @@ class TEBDEngine(TimeEvolutionAlgorithm):
         if self._U_param == U_param and not self.force_prepare_evolve:
             logger.debug('Skip recalculation of U with same parameters as before')
             return  # nothing to do: U is cached
-        self._U_param = U_param
         logger.info('Calculate U for %s', U_param)
         consistency_check(
             delta_t,
@@ -337,10 +336,13 @@ class TEBDEngine(TimeEvolutionAlgorithm):
             'delta_t > ``max_delta_t`` is unreasonably large for trotterization.',
         )
         L = self.psi.L
-        self._U = []
+        U = []
         for dt in self.suzuki_trotter_time_steps(order):
             U_bond = [self._calc_U_bond(i_bond, dt * delta_t, type_evo, E_offset) for i_bond in range(L)]
-            self._U.append(U_bond)
+            U.append(U_bond)
+        # only now: keep the previous `_U` with its `_U_param` if the above raised
+        self._U = U
+        self._U_param = U_param
         self.force_prepare_evolve = False
 
     def evolve(self, N_steps, dt):
